@@ -61,6 +61,7 @@ type c13Env struct {
 	GoFile   int
 	Home     int
 	Tmp      int
+	Alone    int // 1: the package has no ordinary sibling file (setup file and output alone decide what the loader sees)
 	GoPkg    int // GOPACKAGE as exported by go generate: 0 unset, 1 the name of ANOTHER package (directive in a different package), 2 the setup file's own package
 }
 
@@ -91,6 +92,9 @@ func (e *Env) c13Run(base, tag string, in int, env c13Env, countFile string) c13
 		"p/setup.go": c13Inputs[in].src, "p/other.go": "package p\n\nvar Other = 1\n", "outdir/keep.go": "package outdir\n",
 		"p/sub/deep/keep.go": "package deep\n", "home1/.keep": "", "home2/.keep": "", "tmp1/.keep": "", "tmp2/.keep": "",
 	})
+	if env.Alone == 1 {
+		_ = os.Remove(filepath.Join(root, "p", "other.go"))
+	}
 	if env.Prior == 1 {
 		_ = os.WriteFile(filepath.Join(root, "p", "setup.gen.go"), []byte("package p\n\n// stale\n"+strings.Repeat("// a long stale tail that must not survive\n", 200)), 0o644)
 	}
@@ -199,7 +203,7 @@ func init() {
 		}
 		e.Rep.Rule("12 inputs chosen for import-table and marker exposure (blank+alias imports with clashing package names, :conv pkg.F, imported hook, 2 and 3 converter interfaces, a rejected input, no-match warnings) x " +
 			"environment: marker shape (9, via the nanoid seam) x map-iteration order (every permutation of every executed range-over-map loop for <= 4 keys, one deviation at a time; two deviations in thorough; via the verifseam rewrite) complete, " +
-			"and cwd/path spelling (10 places) x GOFILE vs argument x HOME x TMPDIR x prior content of the output path {none, longer stale file} x GOPACKAGE {unset, another package's name, the setup package's name} within 2 deviations of the base environment; oracle O-diff: exit status, output bytes, stdout and stderr (scratch path spellings tokenised) identical to the base environment, and no memory address (0x…) anywhere in them; " +
+			"and cwd/path spelling (10 places) x GOFILE vs argument x HOME x TMPDIR x prior content of the output path {none, longer stale file} x GOPACKAGE {unset, another package's name, the setup package's name} within 2 deviations of the base environment, plus the complete product prior output x GOPACKAGE x {package with, without an ordinary sibling file} x GOFILE; oracle O-diff: exit status, output bytes, stdout and stderr (scratch path spellings tokenised) identical to the base environment, and no memory address (0x…) anywhere in them; " +
 			"non-trivial = environment differing from base in marker or map order on an input with >= 2 imports or >= 2 interfaces")
 		type job struct {
 			in  int
@@ -263,6 +267,19 @@ func init() {
 				}
 			}
 			rec(0, dev, make([]int, len(rad)))
+			// complete sub-product of what decides the loader's view of the package: prior output x GOPACKAGE x sibling file x GOFILE
+			for prior := 0; prior < 2; prior++ {
+				for gp := 0; gp < 3; gp++ {
+					for alone := 0; alone < 2; alone++ {
+						for gf := 0; gf < 2; gf++ {
+							if alone == 0 && prior+gp+gf <= 2 && (prior == 0 || gp == 0 || gf == 0) {
+								continue // already among the deviations
+							}
+							jobs = append(jobs, job{in, c13Env{Marker: 1, MapOrder: "asc", Prior: prior, GoPkg: gp, Alone: alone, GoFile: gf}})
+						}
+					}
+				}
+			}
 		}
 		e.Rep.Set("map_loop_executions_per_input", loopCounts)
 		e.Rep.AddStates(len(jobs))
@@ -302,6 +319,9 @@ func init() {
 				}
 				if j.env.GoPkg != 0 {
 					devs = append(devs, fmt.Sprintf("gopackage=%d", j.env.GoPkg))
+				}
+				if j.env.Alone != 0 {
+					devs = append(devs, "no-sibling-file")
 				}
 				feat := "input=" + c13Inputs[j.in].id + "|dev=" + strings.Join(devs, ",")
 				add := func(key, what string) {
